@@ -7,13 +7,14 @@ def parseCand (s : String) : Cand :=
   | [f, a, b, c] => { file := f, funcLv := a.toNat!, scopeLv := b.toNat!, line := c.toNat! }
   | _ => { file := s, funcLv := 0, scopeLv := 0, line := 0 }
 
-/-- `merge <file:funcLv:scopeLv:line;…>` (in visiting order) → "W=<winner file> D=<dominating file or ->" -/
+/-- `merge <file:funcLv:scopeLv:line;…>` (in any order) → "W=<winner file of that visiting order> S=<winner file of the sorted visit> D=<dominating file or ->" -/
 def handle (cmd : String) (args : List String) : Option String :=
   match cmd, args with
   | "merge", [cs] =>
     let l := ((cs.splitOn ";").filter (· ≠ "")).map parseCand
     let w := (winner l).map (·.file) |>.getD "-"
     let d := (dominantOf l).map (·.file) |>.getD "-"
-    some s!"W={w} D={d}"
+    let sw := (winnerSorted l).map (·.file) |>.getD "-"
+    some s!"W={w} S={sw} D={d}"
   | _, _ => none
 end LuaHelper.MergeOps
